@@ -1243,7 +1243,7 @@ class ValueObject(Value):
             args_.addArgs(fn.getArgNames())
             args_.setArgs([None], [self])
             try:
-                return fn.execute(args_).value
+                return fn.execute(args_, None, None).asString().value
             except CklRuntimeError as e:
                 e.stacktrace.append("_str_")
                 raise
